@@ -390,11 +390,6 @@ def judge(ctx, c, impl, model, chk, glabels):
     if n and has_edge: ctx.sample(c.line)
     sig0 = ("%s" if c.kind == "seq" else "%s_dist") % c.algo
     ri = impl.get(c.cid); rm = model.get(c.cid)
-    if c.kind == "par" and ri:
-        st = [v for k, v in ri if k == "STRAY"]
-        if st and any(t not in ("0",) and not t.startswith("@") for t in st[0]):
-            ctx.signal("O", sig0 + ":stray_messages" + (":wide" if c.weak else ""), "messages were sent that no rank received (left in the queue for a later "
-                       "operation with the same tag): per rank %s" % " ".join(st[0]), case=c.line)
     labs = glabels.get(c.cid)
     if not ri or labs is None or len(labs) != n:
         if not ri:
